@@ -49,9 +49,53 @@ def _stores(fn):
     return out
 
 
-def normalise(fnode):
+_counter = [0]
+
+
+def _inline_helpers(fn, helpers):
+    """N0: `t = helper(a, b)` / `t1, t2 = helper(a, b)` with a straight-line helper of the same module: the helper's
+    assignments are spliced in (its locals renamed apart, formals replaced by the actual argument expressions, which
+    must be names), the returned expression(s) assigned to the target(s)"""
+    changed = True
+    rounds = 0
+    while changed and rounds < 3:
+        changed = False
+        rounds += 1
+        for blk in _blocks(fn):
+            for i, s in enumerate(list(blk)):
+                if not (isinstance(s, ast.Assign) and len(s.targets) == 1 and isinstance(s.value, ast.Call) and
+                        isinstance(s.value.func, ast.Name) and s.value.func.id in helpers and not s.value.keywords and
+                        all(isinstance(a, ast.Name) for a in s.value.args)):
+                    continue
+                h = helpers[s.value.func.id]
+                body = [b for b in h.body if not (isinstance(b, ast.Expr) and isinstance(b.value, ast.Constant))
+                        and not isinstance(b, ast.Assert)]
+                if not body or not isinstance(body[-1], ast.Return) or body[-1].value is None or \
+                        not all(isinstance(b, ast.Assign) and len(b.targets) == 1 and isinstance(b.targets[0], ast.Name)
+                                for b in body[:-1]) or len(h.args.args) != len(s.value.args):
+                    continue
+                _counter[0] += 1
+                tag = f'_h{_counter[0]}'
+                ren = {a.arg: copy.deepcopy(v) for a, v in zip(h.args.args, s.value.args)}
+                for b in body[:-1]:
+                    ren[b.targets[0].id] = ast.Name(id=b.targets[0].id + tag, ctx=ast.Load())
+                new = []
+                for b in body[:-1]:
+                    v = _Subst(ren).visit(copy.deepcopy(b.value))
+                    new.append(_loc(ast.Assign(targets=[ast.Name(id=b.targets[0].id + tag, ctx=ast.Store())], value=v), s))
+                rv = _Subst(ren).visit(copy.deepcopy(body[-1].value))
+                new.append(_loc(ast.Assign(targets=s.targets, value=rv), s))
+                k = blk.index(s)
+                blk[k:k + 1] = new
+                changed = True
+    return fn
+
+
+def normalise(fnode, helpers=None):
     fn = copy.deepcopy(fnode)
     A = fn.args.args[0].arg if fn.args.args else None
+    if helpers:
+        fn = _inline_helpers(fn, {k: v for k, v in helpers.items() if k != fn.name})
     # ---- N3: shape aliases
     stores = _stores(fn)
     alias = {}
@@ -67,6 +111,12 @@ def normalise(fnode):
                     blk.remove(s)
                 elif isinstance(t, ast.Name) and stores.get(t.id) == 1 and isinstance(v, ast.Subscript) and \
                         isinstance(v.value, ast.Attribute) and v.value.attr == 'shape' and isinstance(v.slice, ast.Constant):
+                    alias[t.id] = copy.deepcopy(v)
+                    blk.remove(s)
+                elif isinstance(t, ast.Name) and stores.get(t.id) == 1 and blk is fn.body and \
+                        isinstance(v, (ast.Call, ast.UnaryOp, ast.Compare)) and _is_guard_expr(v) and \
+                        all(stores.get(x.id, 0) <= 1 for x in ast.walk(v) if isinstance(x, ast.Name)):
+                    # N4: a guard evaluated once into a local (its operands are never rebound): uses stand for the test
                     alias[t.id] = copy.deepcopy(v)
                     blk.remove(s)
     if alias:
@@ -165,6 +215,12 @@ def normalise(fnode):
     fn = _Expr().visit(fn)
     ast.fix_missing_locations(fn)
     return fn
+
+
+def _is_guard_expr(v):
+    t = norm(v)
+    return t.startswith(('np.any(', 'not np.array_equal(', 'not np.all(', 'np.array_equal(', 'np.all(')) or \
+        (isinstance(v, ast.Compare) and ('len(' in t or '.size' in t))
 
 
 def _blocks(node):
